@@ -4,6 +4,16 @@ use crate::common::*;
 use crate::pairhist::Bias;
 
 pub fn run(args: &Args) {
+    if let Some(path) = &args.replay {
+        if crate::w_admin::read_replay(path)["failing_input"]["kind"] == "migration_probe" {
+            let mut out = Out::new(&args.out);
+            migration_probes(&mut out);
+            for f in &out.monitor_failures { println!("REPLAY property predicate false: {}", f["what"]); }
+            let bad = !out.monitor_failures.is_empty();
+            out.finish();
+            std::process::exit(if bad { 1 } else { 0 });
+        }
+    }
     crate::c01::run_prop_with(args, "C07", Bias { tiny_swaps: true, spreads: false, toggles: false },
         "histories of 5-35 operations on a real constant-product pair biased to small swaps and frequent fee collections so that pending \
          protocol fees are zero, at or below, and above the collection threshold; non-trivial = at least 3 different operation kinds succeeded; \
